@@ -51,14 +51,14 @@ theorem scPkt0_len (y : Session) : (scPkt y 0).length ≤ DNSCACHE_ANSWER_SIZE :
   simp [scPkt, DNSCACHE_ANSWER_SIZE]
 
 theorem srv_recv_mid {P : Par} (hP : P.Ok) {s : Srv} (hS : SStat P s) (hi : IdleImm (getUser s P.u)) {k : Nat}
-    (hk : k < 36) (hA : Aged P (getUser s P.u) k 1) {sd sl : Nat} (hPA : PAged P (getUser s P.u) sd sl)
+    (hk : k < 36) {sl : Nat} (hA : Aged P (getUser s P.u) k sl) {sd sp : Nat} (hPA : PAged P (getUser s P.u) sd sp)
     {Q : Query} {sq fr : Nat} {dsq dfr : Int} {out : List Nat} {o m : Nat}
     (hQ : UpQ P Q ⟨sq, fr, dsq, dfr, false⟩ k ((out.drop o).take m))
     (hE : Expect (getUser s P.u) out sq o fr) (hsq : sq < 8) (hfr : fr < 16)
-    (hm : o + m ≤ out.length) (h64 : out.length ≤ 65536) :
+    (hm : o + m ≤ out.length) (h64 : out.length ≤ 65536) (hsl : 1 ≤ sl ∧ sl ≤ 21 := by omega) :
     ∃ s' evs t pkt, iteration s (.q Q) s.now = (s', evs, t) ∧ downOfEvents evs = [.ans Q.id Q.type Q.name pkt] ∧
-      tunOfSEvents evs = [] ∧ AfterMid P s s' out sq (o + m) (fr + 1) pkt ∧ Aged P (getUser s' P.u) ((k + 1) % 36) 1 ∧
-      PAged P (getUser s' P.u) sd sl := by
+      tunOfSEvents evs = [] ∧ AfterMid P s s' out sq (o + m) (fr + 1) pkt ∧ Aged P (getUser s' P.u) ((k + 1) % 36) sl ∧
+      PAged P (getUser s' P.u) sd sp := by
   have hf : Fresh P (getUser s P.u) k (0 + 1) := hA.fresh hk (by omega)
   obtain ⟨dlen, hdl, h6, hparse, hpl⟩ := hQ.parse
   have htop := topSess_live hS
@@ -68,8 +68,8 @@ theorem srv_recv_mid {P : Par} (hP : P.Ok) {s : Srv} (hS : SStat P s) (hi : Idle
   have hx0s : XStat P x0 := by subst hx0; exact ⟨hS.x.active, hS.x.auth, hS.x.enabled, hS.x.conn, hS.x.enc, hS.x.oseq, hS.x.ofrag, hS.x.iseq, hS.x.ifrag⟩
   have hx0i : IdleImm x0 := by subst hx0; exact ⟨hi.out, hi.q, hi.qs, hi.lazy⟩
   have hx0f : Fresh P x0 k (0 + 1) := by subst hx0; exact ⟨hf.cache, hf.qmem⟩
-  have hx0A : Aged P x0 k 1 := by subst hx0; exact hA.congr rfl rfl rfl rfl
-  have hx0P : PAged P x0 sd sl := by subst hx0; exact hPA.congr rfl rfl rfl rfl
+  have hx0A : Aged P x0 k sl := by subst hx0; exact hA.congr rfl rfl rfl rfl
+  have hx0P : PAged P x0 sd sp := by subst hx0; exact hPA.congr rfl rfl rfl rfl
   have hx0e : Expect x0 out sq o fr := by subst hx0; exact hE
   have hx0o : x0.outpacket = (getUser s P.u).outpacket := by subst hx0; rfl
   have hx0h : x0.host = (getUser s P.u).host := by subst hx0; rfl
@@ -162,7 +162,7 @@ theorem srv_recv_mid {P : Par} (hP : P.Ok) {s : Srv} (hS : SStat P s) (hi : Idle
       rw [getUser_withNow, getUser_putUser_self _ _ _ hu]
     rw [hg]
     subst hY
-    have hyA : Aged P y k 1 := by
+    have hyA : Aged P y k sl := by
       subst hy
       exact hx0A.congr rfl rfl rfl rfl
     have := (hyA.step hk (by omega)).memo Q (scPkt y 0) (scPkt0_len y) k 1 ⟨by omega, by omega⟩ (behind_next k hk) hk hQ.c4 hQ.len5
@@ -172,7 +172,7 @@ theorem srv_recv_mid {P : Par} (hP : P.Ok) {s : Srv} (hS : SStat P s) (hi : Idle
       rw [getUser_withNow, getUser_putUser_self _ _ _ hu]
     rw [hg]
     subst hY
-    have hyP : PAged P y sd sl := by
+    have hyP : PAged P y sd sp := by
       subst hy
       exact hx0P.congr rfl rfl rfl rfl
     have := hyP.memo_data hP.hu Q (scPkt y 0) (scPkt0_len y) hQ.len5 hQ.c0
@@ -203,12 +203,12 @@ theorem uncompress_compress (frame : List Nat) (h : frame.length ≤ 65536) : un
   simp [uncompress, h]
 
 theorem srv_recv_last {P : Par} (hP : P.Ok) {s : Srv} (hS : SStat P s) (hi : IdleImm (getUser s P.u)) {k : Nat}
-    (hk : k < 36) (hA : Aged P (getUser s P.u) k 1)
+    (hk : k < 36) {sl : Nat} (hA : Aged P (getUser s P.u) k sl)
     {Q : Query} {sq fr : Nat} {dsq dfr : Int} {frame : List Nat} {o m : Nat}
     (hQ : UpQ P Q ⟨sq, fr, dsq, dfr, true⟩ k (((0x5a :: frame).drop o).take m))
     (hE : Expect (getUser s P.u) (0x5a :: frame) sq o fr) (hsq : sq < 8) (hfr : fr < 16)
     (hm : o + m = (0x5a :: frame).length) (h64 : (0x5a :: frame).length ≤ 65536) (h24 : 24 ≤ frame.length)
-    (hdst : ipDst frame ≠ (getUser s P.u).tunIp) :
+    (hdst : ipDst frame ≠ (getUser s P.u).tunIp) (hsl : sl ≤ 21 := by omega) :
     ∃ s' evs t, iteration s (.q Q) s.now = (s', evs, t) ∧ downOfEvents evs = [] ∧
       tunOfSEvents evs = [[0, 0, 8, 0] ++ frame.drop 4] ∧ AfterLast P s s' Q sq fr := by
   have hf : Fresh P (getUser s P.u) k (0 + 1) := hA.fresh hk (by omega)
@@ -333,14 +333,15 @@ theorem iteration_tick {u : Nat} {s : Srv} (hs : Solo u s) (now' : Nat) :
 
 /-- the sweep answers the parked query of the last fragment with a dataless packet -/
 theorem srv_tick_ack {P : Par} (hP : P.Ok) {s : Srv} (hS : SStat P s) {Q : Query} {k : Nat} (hk : k < 36)
-    (hA : Aged P (getUser s P.u) k 1) {sd sl : Nat} (hPA : PAged P (getUser s P.u) sd sl)
+    {sl : Nat} (hA : Aged P (getUser s P.u) k sl) {sd sp : Nat} (hPA : PAged P (getUser s P.u) sd sp)
     (hq : (getUser s P.u).q.id = 0) (hqs : (getUser s P.u).qs = Q) (hlz : (getUser s P.u).lazy = false)
     (hout : (getUser s P.u).outpacket.len = 0)
     (hfrom : Q.from_ = clientAddr) (hid : Q.id ≠ 0) (hid2 : Q.id2 = 0)
-    (h0 : Q.name.getD 0 0 = hexLower P.u) (h4 : Q.name.getD 4 0 = cmcChar k) (h5 : 5 ≤ Q.name.length) :
+    (h0 : Q.name.getD 0 0 = hexLower P.u) (h4 : Q.name.getD 4 0 = cmcChar k) (h5 : 5 ≤ Q.name.length)
+    (hsl : 1 ≤ sl ∧ sl ≤ 21 := by omega) :
     ∃ s' evs tunsel, iteration s .tick s.now = (s', evs, (20000, tunsel)) ∧
       downOfEvents evs = [.ans Q.id Q.type Q.name (scPkt (getUser s P.u) 0)] ∧ tunOfSEvents evs = [] ∧
-      SStat P s' ∧ IdleImm (getUser s' P.u) ∧ Aged P (getUser s' P.u) ((k + 1) % 36) 1 ∧ PAged P (getUser s' P.u) sd sl ∧
+      SStat P s' ∧ IdleImm (getUser s' P.u) ∧ Aged P (getUser s' P.u) ((k + 1) % 36) sl ∧ PAged P (getUser s' P.u) sd sp ∧
       (getUser s' P.u).inpacket = (getUser s P.u).inpacket ∧ (getUser s' P.u).outpacket = (getUser s P.u).outpacket ∧
       (getUser s' P.u).oqFilled = (getUser s P.u).oqFilled ∧ (getUser s' P.u).tunIp = (getUser s P.u).tunIp ∧
       (getUser s' P.u).fragsize = (getUser s P.u).fragsize ∧ s'.now = s.now := by
@@ -408,13 +409,13 @@ theorem srv_tick_ack {P : Par} (hP : P.Ok) {s : Srv} (hS : SStat P s) {Q : Query
     · rw [fJ]; subst hx0; exact hlz
   · rw [hg]
     subst hY
-    have hxA : Aged P x0 k 1 := by subst hx0; exact hA.congr rfl rfl rfl rfl
+    have hxA : Aged P x0 k sl := by subst hx0; exact hA.congr rfl rfl rfl rfl
     have := (hxA.step hk (by omega)).memo Q (scPkt x0 0) (scPkt0_len x0) k 1 ⟨by omega, by omega⟩ (behind_next k hk) hk h4 h5
       (by rw [h0]; have := (hexLower_facts P.u hP.hu).2.2; constructor <;> (intro hc; apply this; rw [hc]; simp))
     exact this.congr rfl rfl rfl rfl
   · rw [hg]
     subst hY
-    have hxP : PAged P x0 sd sl := by subst hx0; exact hPA.congr rfl rfl rfl rfl
+    have hxP : PAged P x0 sd sp := by subst hx0; exact hPA.congr rfl rfl rfl rfl
     have := hxP.memo_data hP.hu Q (scPkt x0 0) (scPkt0_len x0) h5 h0
     exact this.congr rfl rfl rfl rfl
   · rw [hg, fG, hx0in]
